@@ -18,7 +18,10 @@ func Go(fn func()) {
 type Buffer []byte
 
 func GetBuf(size int) Buffer {
-	return getHook(bytespool.Get(size))
+	if b, ok := getHookBuf(size); ok {
+		return b
+	}
+	return bytespool.Get(size)
 }
 
 func ReleaseBuf(b Buffer) {
